@@ -1,6 +1,7 @@
 (** C09 — LCS and one-difference kernels are exact within their error bound: theorems. *)
 From Coq Require Import NArith ZArith List Bool.
 Import ListNotations.
+From OBI.C09.Gen Require Import Tables.
 From OBI.C09 Require Import Model Proofs.
 
 (** Packed cells (fastlcs.go). For fields below 2^16 (path length at most 65534): decoding inverts encoding; the
@@ -17,7 +18,17 @@ Theorem C09_pack_order :
   (forall s l o, s < 65536 -> l <= 65534 -> setout (enc s l o) = enc s l true)%N.
 Proof. exact (conj dec_enc (conj enc_lt (conj incpath_enc (conj incscore_enc setout_enc)))). Qed.
 
-(** _samenuc is IUPAC compatibility: two codes (either case) match iff their sets of bases intersect. *)
+(** The literals of the model are the constants of the build under test: wsize, dwsize, the masks derived from them,
+    the cells _empty, _out, _notavail, and encodeValues / decodeValues on sample points, all dumped from the current
+    build into Gen/Tables.v before every run (re-proved on every run). *)
+Theorem C09_pack_consts :
+  (wsize_gen = 16 /\ dwsize_gen = 32 /\ mask16 = 2 ^ wsize_gen - 1 /\ outbit = 2 ^ dwsize_gen /\
+   65536 = 2 ^ wsize_gen /\ W64 - 1 - outbit = N.lxor (W64 - 1) (2 ^ dwsize_gen) /\
+   c_empty = empty_gen /\ c_out = out_gen /\ c_notavail = notavail_gen /\
+   forallb enc_sample_ok enc_samples = true /\ forallb dec_sample_ok dec_samples = true)%N.
+Proof. exact pack_consts. Qed.
+
+(** _samenuc is IUPAC compatibility (the table _iupac is the one of the build under test, Gen/Tables.v): two codes (either case) match iff their sets of bases intersect. *)
 Theorem C09_iupac_compat : forall x y, In x iupac_codes -> In y iupac_codes -> samenuc x y = compatible x y.
 Proof. exact samenuc_compatible. Qed.
 
@@ -42,6 +53,14 @@ Proof.
   - split; [intro H; apply d1or0_one_sound; exact H |]. split; [apply d1or0_minus_one | apply d1or0_sym].
 Qed.
 
+(** D1Or0 against the Levenshtein distance (recursive definition [lev], unit costs for substitution, insertion,
+    deletion): 0 iff the distance is 0, 1 iff it is 1, -1 iff it is at least 2. *)
+Theorem C09_d1or0_lev : forall s1 s2,
+  (verdict (d1or0 s1 s2) = 0 <-> lev s1 s2 = 0%nat)%Z /\
+  (verdict (d1or0 s1 s2) = 1 <-> lev s1 s2 = 1%nat)%Z /\
+  (verdict (d1or0 s1 s2) = -1 <-> (2 <= lev s1 s2)%nat)%Z.
+Proof. exact d1or0_lev. Qed.
+
 (** The reference recursion (full matrix, no band): its first component is the length of a longest common
     subsequence under IUPAC compatibility (inductive definition csub), and the pair is an alignment (inductive
     definition ali) with that many matches that is shortest among the alignments with that many matches. *)
@@ -55,33 +74,102 @@ Proof.
   split; [apply lcs_ref_achieved |]. intros s l H. exact (lcs_ref_optimal a b s l H).
 Qed.
 
-(** FULL STATEMENT (not proved for all lengths): forall a b m, the symbols being arbitrary and
-    |a| + |b| < 2^15: band_spec a b m, i.e. FastLCSScore (fresh buffer) returns the reference pair whenever the
-    bound is -1 or the differences (length - matches) of the reference do not exceed it, and otherwise (-1,-1)
-    or a pair with more differences than the bound.
-    PROVED: the same for ALL pairs of sequences over {a,c,g,t} of length <= 3 with all bounds -1..4, and for ALL
-    pairs over {a,c} of length <= 5 with all bounds -1..6, by evaluation of the model inside the kernel; the bounds
-    are in the names. Beyond them, exactness of the band rests on the comparison of the real code with the
-    full-matrix oracle on every run (all pairs over {a,c,g,t} up to length 4, thorough: 6; random pairs up to 400). *)
-Theorem C09_band_exact_upto_3 : forall a b m,
-  over nucs a -> over nucs b -> (length a <= 3)%nat -> (length b <= 3)%nat -> (-1 <= m <= 4)%Z ->
-  band_spec a b m.
-Proof. exact band_exact_upto_3. Qed.
-Theorem C09_band_exact_binary_upto_5 : forall a b m,
-  over binary a -> over binary b -> (length a <= 5)%nat -> (length b <= 5)%nat -> (-1 <= m <= 6)%Z ->
-  band_spec a b m.
-Proof. exact band_exact_binary_upto_5. Qed.
+(** ---- The banded kernel, as a refinement in four layers, each for ALL inputs. ----
 
-(** Reused scratch buffers and symmetry of the banded kernel, for ALL pairs over {a,c} of length <= 4 and all
-    bounds -1..5 (evaluation inside the kernel, BandX.v; the bound is in the name): starting from a buffer whose
-    every word is 2^64-1, or whose every word is the best possible in-band cell, gives the answer of a fresh
-    buffer; exchanging the two sequences gives the same answer. *)
-Theorem C09_band_buffer_sym_binary_upto_4 : forall a b m,
-  over binary a -> over binary b -> (length a <= 4)%nat -> (length b <= 4)%nat -> (-1 <= m <= 5)%Z ->
-  fast_lcs_score a b m poison1 = fast_lcs_score a b m [] /\
-  fast_lcs_score a b m poison2 = fast_lcs_score a b m [] /\
-  fast_lcs_score b a m [] = fast_lcs_score a b m [].
-Proof. exact band_extra_binary_upto_4. Qed.
+    Layer (i). The two-row anti-diagonal program (both modes, ANY content of the reused scratch buffer) returns what
+    the full (|B|+1) x (|A|+1) matrix [bmat] restricted to the band holds in its corner cell (A the longer
+    sequence): every word the program reads was written by the same call with the matrix value of that cell
+    (invariant [agree] of BandM.v over rows of two anti-diagonals). [core_spec] mentions no buffer. *)
+Theorem C09_band_matrix : forall a b maxerr egf init,
+  lcs_band a b maxerr egf init =
+  if (zlen a <? zlen b)%Z then core_spec b a maxerr egf else core_spec a b maxerr egf.
+Proof. exact lcs_band_matrix. Qed.
+
+(** Stale buffer contents are never read before they are written: the three results of FastLCSEGFScoreByte do not
+    depend on the scratch buffer, for all sequences, bounds, both modes and all buffer contents (replaces the
+    bounded C09_band_buffer_sym_binary_upto_4 of round 1). *)
+Theorem C09_buffer_independent : forall a b maxerr egf init init',
+  lcs_band a b maxerr egf init = lcs_band a b maxerr egf init'.
+Proof. exact lcs_band_buffer_independent. Qed.
+
+(** Layer (ii). Mode FastLCSScore, |A| + |B| <= 30000 (no field of a packed word wraps), any band parameter
+    [extra]. Every cell (i, j) of the band holds a sound word [good]: either an in-band pair (s, l) that is not
+    better than the unbanded lexicographic DP [F i j] (the reference recursion on the prefixes) and lies in the
+    numeric envelope of alignments, or an "out" word below every in-band word; and the cell EQUALS the packed
+    unbanded optimum whenever [cond i j] holds: the optimum of the cell has so few differences e that
+    e - (j-i) < 4*extra and e + (j-i) < 4*(|A|-|B|) + 4*extra. *)
+Theorem C09_band_cells : forall bA bB extra, (zlen bB <= zlen bA)%Z -> (zlen bA + zlen bB <= 30000)%Z ->
+  forall i j, rect bA bB i j -> inband bA bB extra i j ->
+  good bA bB (bmat false bA bB (zlen bB) extra (1 + (zlen bA - zlen bB) + 2 * extra) i j) i j /\
+  (cond bA bB extra i j ->
+   bmat false bA bB (zlen bB) extra (1 + (zlen bA - zlen bB) + 2 * extra) i j = encF bA bB i j).
+Proof. exact cells_all. Qed.
+
+(** Layer (iii), geometry. A cell satisfying [cond] lies strictly inside the band; [cond] is inherited by whichever
+    neighbour the optimum of the cell comes from (so following optimal predecessors never reaches an extreme
+    diagonal: an optimal alignment with few enough differences never leaves the band - an alignment with e
+    differences has at most e gaps and stays within (e -/+ (j-i))/2 diagonals of the corner diagonals, and the band
+    is about four times wider than that); and for the band the kernel chooses (extra = maxError - (|A|-|B|) + 1)
+    the corner cell satisfies [cond] whenever the reference is within the bound or no bound is given. *)
+Theorem C09_band_geometry :
+  (forall bA bB extra i j, rect bA bB i j -> cond bA bB extra i j ->
+     0 < j - i + 2 * extra < 2 * (1 + (zlen bA - zlen bB) + 2 * extra - 1))%Z /\
+  (forall bA bB extra i j, (1 <= i <= zlen bB)%Z -> (1 <= j <= zlen bA)%Z -> cond bA bB extra i j ->
+     (F bA bB i j = stepm (samenuc (get bA (j - 1)) (get bB (i - 1))) (F bA bB (i - 1) (j - 1)) ->
+        cond bA bB extra (i - 1) (j - 1)) /\
+  (F bA bB i j = step1 (F bA bB i (j - 1)) -> cond bA bB extra i (j - 1)) /\
+  (F bA bB i j = step1 (F bA bB (i - 1) j) -> cond bA bB extra (i - 1) j))%Z /\
+  (forall bA bB m, (zlen bB <= zlen bA)%Z ->
+     (m = -1 \/ Z.of_nat (snd (lcs_ref bA bB)) - Z.of_nat (fst (lcs_ref bA bB)) <= m)%Z ->
+     cond bA bB ((if m =? -1 then zlen bA * 2 else m) - (zlen bA - zlen bB) + 1)%Z (zlen bB) (zlen bA)).
+Proof. exact (conj cond_interior (conj cond_hereditary cond_corner)). Qed.
+
+(** Layer (iv) = C09_band_exact, for ALL pairs of sequences with |a| + |b| <= 30000 (any symbols), ALL bounds m
+    (any integer) and ANY content of the scratch buffer: whenever the bound is -1 or the differences (length -
+    matches) of the reference do not exceed it, FastLCSScore returns the reference pair; otherwise it returns
+    (-1,-1) or a pair with more differences than the bound - never a spurious within-bound answer. *)
+Theorem C09_band_exact : forall a b m init, (Z.of_nat (length a) + Z.of_nat (length b) <= 30000)%Z ->
+  band_spec_buf a b m init.
+Proof. exact band_exact. Qed.
+
+(** FastLCSScore is symmetric in its two sequences: all inputs, all bounds, any two scratch buffers (for equal
+    lengths the banded matrix of (b, a) is the transpose of that of (a, b); replaces the bounded symmetry clause). *)
+Theorem C09_band_symmetric : forall a b m init init', fast_lcs_score a b m init = fast_lcs_score b a m init'.
+Proof. exact fast_lcs_score_sym. Qed.
+
+(** ---- End-gap-free mode (FastLCSEGFScore). ----
+    The reference [lcs_ref_egf] (recursion [egf_ref] on the suffixes of the longer sequence A and the shorter B, no band)
+    is achieved by, and optimal among, the alignments [aliE] (inductive definition) in which the columns consuming a
+    symbol of A only are not counted before the first and after the last symbol of B: maximum number of matching
+    columns, then the fewest counted columns. *)
+Theorem C09_egf_ref_optimal : forall a b,
+  let A := if (length a <? length b)%nat then b else a in
+  let B := if (length a <? length b)%nat then a else b in
+  (aliE false A B (fst (lcs_ref_egf a b)) (snd (lcs_ref_egf a b)) /\
+   (forall s l, aliE false A B s l ->
+      s < fst (lcs_ref_egf a b) \/ (s = fst (lcs_ref_egf a b) /\ snd (lcs_ref_egf a b) <= l)))%nat.
+Proof. exact lcs_ref_egf_spec. Qed.
+
+(** Layer (ii) of the mode: every cell of the banded matrix (endgapfree = true) is a sound word - an in-band pair not
+    better than the unbanded end-gap-free DP [Fe] of the prefixes, or an out word - and equals the packed optimum
+    wherever [condE] holds: the number of symbols of B the optimum of the cell leaves unmatched plus the excess of the
+    cell's diagonal over the final diagonal is below 2*extra (this keeps optimal paths inside the band although free
+    horizontal moves cost nothing). |A| + |B| <= 30000. *)
+Theorem C09_egf_cells : forall bA bB extra, (zlen bB <= zlen bA)%Z -> (zlen bA + zlen bB <= 30000)%Z ->
+  forall i j, rect bA bB i j -> inband bA bB extra i j ->
+  goodE bA bB (bmat true bA bB (zlen bB) extra (1 + (zlen bA - zlen bB) + 2 * extra) i j) i j /\
+  (condE bA bB extra i j ->
+   bmat true bA bB (zlen bB) extra (1 + (zlen bA - zlen bB) + 2 * extra) i j = encFe bA bB i j).
+Proof. exact cellsE_all. Qed.
+
+(** C09_band_exact for the end-gap-free mode, for ALL pairs with |a| + |b| <= 30000, ALL bounds and ANY scratch buffer:
+    whenever the bound is -1 or the differences (counted length - matches) of [lcs_ref_egf] do not exceed it,
+    FastLCSEGFScore returns that pair as its first two results; otherwise (-1,-1) or a pair with more differences than
+    the bound (replaces the bounded C09_egf_exact_upto_3 / _binary_upto_5 of the first version of this round). The third
+    result (end position) is not specified by the property. *)
+Theorem C09_egf_exact : forall a b m init, (Z.of_nat (length a) + Z.of_nat (length b) <= 30000)%Z ->
+  egf_spec a b m init.
+Proof. exact egf_exact. Qed.
 
 (** Symmetry for all inputs: the kernel (both modes, any buffer) is symmetric for sequences of different lengths
     (it swaps them), and the reference pair is symmetric. *)
@@ -98,19 +186,35 @@ Example C09_nonvacuous :
   over nucs [97; 99; 103]%N /\
   fast_lcs_score [97; 99; 103; 116]%N [97; 103; 116]%N 1 [] = (3, 4)%Z /\
   fast_lcs_score [97; 97; 97; 97]%N [97; 97]%N 1 [] = (-1, -1)%Z /\
-  lcs_ref [97; 99; 103; 116]%N [116; 103; 99; 97]%N = (1, 5)%nat.
+  fast_lcs_score [97; 99; 103; 116]%N [116; 103; 99; 97]%N 1 [] = (1, 5)%Z /\
+  fast_lcs_score [97; 99; 103; 116]%N [97; 103; 116]%N 1 (repeat 7%N 40) = (3, 4)%Z /\
+  (Z.of_nat (length [97; 99; 103; 116]%N) + Z.of_nat (length [116; 103; 99; 97]%N) <= 30000)%Z /\
+  lcs_ref [97; 99; 103; 116]%N [116; 103; 99; 97]%N = (1, 5)%nat /\
+  lev [97; 99; 103; 116]%N [99; 103; 116; 116]%N = 2%nat /\
+  lcs_ref_egf [116; 116; 97; 99; 103; 116]%N [97; 99; 103]%N = (3, 3)%nat /\
+  fast_lcs_egf_sl [116; 116; 97; 99; 103; 116]%N [97; 99; 103]%N 0 [] = (3, 3)%Z.
 Proof.
   split; [vm_compute; repeat split; congruence |]. split; [exact (E_del [97]%N 99%N [103; 116]%N) |].
-  split; [intros c Hc; cbn in Hc |- *; tauto |]. repeat split; vm_compute; reflexivity.
+  split; [intros c Hc; cbn in Hc |- *; tauto |].
+  split; [vm_compute; reflexivity |]. split; [vm_compute; reflexivity |]. split; [vm_compute; reflexivity |].
+  split; [vm_compute; reflexivity |]. split; [vm_compute; discriminate |]. split; [vm_compute; reflexivity |]. split; [vm_compute; reflexivity |]. split; vm_compute; reflexivity.
 Qed.
 
 Print Assumptions C09_pack_order.
+Print Assumptions C09_pack_consts.
 Print Assumptions C09_iupac_compat.
 Print Assumptions C09_iupac_orig_refuted.
 Print Assumptions C09_d1or0_exact.
+Print Assumptions C09_d1or0_lev.
 Print Assumptions C09_ref_is_lcs.
-Print Assumptions C09_band_exact_upto_3.
-Print Assumptions C09_band_exact_binary_upto_5.
-Print Assumptions C09_band_buffer_sym_binary_upto_4.
+Print Assumptions C09_band_matrix.
+Print Assumptions C09_buffer_independent.
+Print Assumptions C09_band_cells.
+Print Assumptions C09_band_geometry.
+Print Assumptions C09_band_exact.
+Print Assumptions C09_band_symmetric.
+Print Assumptions C09_egf_ref_optimal.
+Print Assumptions C09_egf_cells.
+Print Assumptions C09_egf_exact.
 Print Assumptions C09_band_swap.
 Print Assumptions C09_ref_symmetric.
